@@ -197,6 +197,7 @@ type Config struct {
 	pendingW  []*watcher // goroutines to try to run after a close / cancel
 	closedNow bool       // a channel was just closed: run watchers after the instruction
 	kind      string     // waiter kind this path is verified for (option waitkinds a b)
+	ghostDone bool       // the contract's ghostsets were applied at the Unlock already
 }
 
 type heldLock struct {
@@ -205,7 +206,7 @@ type heldLock struct {
 }
 
 func (c *Config) clone() *Config {
-	n := &Config{st: c.st.clone(), panicking: c.panicking, panicVal: c.panicVal, recovered: c.recovered, old: c.old, kind: c.kind}
+	n := &Config{st: c.st.clone(), panicking: c.panicking, panicVal: c.panicVal, recovered: c.recovered, old: c.old, kind: c.kind, ghostDone: c.ghostDone}
 	for _, f := range c.frames {
 		n.frames = append(n.frames, f.clone())
 	}
